@@ -551,6 +551,17 @@ func c23TxIdentity(d *transaction.Transaction) (id, loose string, signers []type
 	return id, loose, signers, nil
 }
 
+func c23Addrs(as []types.Address) string {
+	s := ""
+	for i, a := range as {
+		if i > 0 {
+			s += ","
+		}
+		s += a.String()
+	}
+	return "[" + s + "]"
+}
+
 func c23CheckCanonical(raw []byte, c *check.Check) string {
 	re, err := rlp.EncodeToBytes(c)
 	if err != nil {
@@ -999,10 +1010,10 @@ func c23TxMutant(t *rapid.T, g *sim.Gen) {
 		return
 	}
 	if must == c23MustReject {
-		t.Fatalf("VERIF-SIG[bad-signature-accepted] signature values of class %s are accepted (recovered %v)\nbase  =%x\nmutant=%x", class, signers1, x.raw, mut)
+		t.Fatalf("VERIF-SIG[bad-signature-accepted] signature values of class %s are accepted (recovered %s; same hash, sender and signers as the base: %v)\nbase  =%x\nmutant=%x", class, c23Addrs(signers1), id1 == id0, x.raw, mut)
 	}
 	if id1 == id0 {
-		t.Fatalf("VERIF-SIG[malleable-same-identity] class %s: the same transaction (hash %s, sender and signers %v) is accepted under different bytes\nbase  =%x\nmutant=%x", class, h0.String(), signers0, x.raw, mut)
+		t.Fatalf("VERIF-SIG[malleable-same-identity] class %s: the same transaction (hash %s, sender and signers %s) is accepted under different bytes\nbase  =%x\nmutant=%x", class, h0.String(), c23Addrs(signers0), x.raw, mut)
 	}
 	if loose1 == loose0 {
 		// only the multisig signature list differs: known finding, excluded by c23ExcludeMsigSigset
@@ -1062,7 +1073,7 @@ func c23CheckMutant(t *rapid.T, g *sim.Gen) {
 		return
 	}
 	if must == c23MustReject {
-		t.Fatalf("VERIF-SIG[bad-signature-accepted] check signature values of class %s are accepted\nbase  =%x\nmutant=%x", class, x.raw, mut)
+		t.Fatalf("VERIF-SIG[bad-signature-accepted] check signature values of class %s are accepted (same hash and sender as the base: %v)\nbase  =%x\nmutant=%x", class, id1 == id0, x.raw, mut)
 	}
 	if id1 == id0 {
 		t.Fatalf("VERIF-SIG[malleable-same-identity] class %s: the same check (%s) is accepted under different bytes\nbase  =%x\nmutant=%x", class, id0, x.raw, mut)
